@@ -82,7 +82,8 @@ def cases(draw, tier="quick"):
         samples.append(s)
     opts = {"fw": draw(st.sampled_from(["attrs", "dataclasses"])), "pic": draw(st.sampled_from([True, True, False])),
             "sreg": list(names), "meta": draw(st.booleans()), "dkr": [r"n_\d+"], "dkf": [],
-            "max_literals": draw(st.sampled_from([10, 0])), "nested": False, "slots": draw(st.sampled_from([False, False, True]))}
+            "max_literals": draw(st.sampled_from([10, 0])), "nested": False, "slots": draw(st.sampled_from([False, False, True])),
+            "unicode": draw(st.sampled_from([True, True, False]))}
     case = {"samples": samples, "opts": opts}
     if draw(st.integers(0, 3)) == 0:
         # a second root model over the same keys (other pseudo-types of the same family, null / missing at optional places):
